@@ -434,6 +434,10 @@ fn components(engine: &str) -> Value {
             "real": ["hyper http1 server connection + xs::api::handle (routing, all handlers)", "xs::store::Store incl. history threads and live tasks behind GET /", "cacache (streamed request bodies, POST/GET /cas)", "xs client-side ReadOptions::to_query_string for building queries"],
             "stubbed": ["transport: tokio::io::duplex pipes instead of sockets; request bytes fragmented, chunked, cut by disconnects", "HTTP client (hand-written request builder and response/chunk/NDJSON/SSE parser in the harness)", "clock and ids (simulated)", "history-thread scheduling (released until idle between client steps)"]
         }),
+        "e5" => json!({
+            "real": ["xs::handlers::serve / Handler / EngineWorker", "xs::generators::serve", "xs::commands::serve", "nushell engine (nu-* 0.103) evaluating generated scripts", "nu custom commands .append/.cat/.head/.cas/.get/.remove", "xs::store::Store, cacache"],
+            "stubbed": ["scheduling of engine-worker, generator-worker, command-call, history and gc threads (sync points, seeded chooser)", "clock (tokio paused clock + simulated wall clock) and ids", "the operator / clients (harness)", "restart (byte copy of the directory + new runtime + new serve loops)"]
+        }),
         "e2" => json!({
             "real": ["xs::store::Store::append / read / read_sync on real OS threads and tokio tasks", "tokio broadcast + mpsc channels, current_thread runtime (stepped)", "fjall write path"],
             "stubbed": ["thread and task interleaving (every writer, history thread and live task parks at sync points and is released by the seeded chooser)", "clock (tokio paused clock + simulated wall clock, advanced by decisions)", "id entropy", "broadcast and delivery channel capacities (knobs)"]
@@ -461,6 +465,11 @@ fn assumptions(engine: &str) -> Value {
             "one tokio step runs all server tasks to idle: interleavings between connection tasks are not explored (production uses a multi-threaded runtime)",
             "request/response pipes are >= 1 KiB (a smaller pipe makes hyper truncate an early 4xx when it closes a connection whose request body it has not read)",
             "imported ids are kept below later appended ids (see the known C03 finding on the live-task dedupe)"
+        ]),
+        "e5" => json!([
+            "sampling, not proof: verdict covers the histories and schedules explored",
+            "inside one tokio step the serve loops and handler tasks run in tokio's FIFO order; OS threads are interleaved at their sync points",
+            "appends made by tokio tasks are atomic steps (they run on the scheduler thread)"
         ]),
         "e2" => json!([
             "sampling, not proof: verdict covers the schedules explored",
